@@ -195,7 +195,28 @@ func (f *frame) execInstr(in ssa.Instruction, st *State, reach string) error {
 		// no interleaving semantics: the spawned function may write anything it can reach
 		x.note("go statement at %s: heap havocked", x.pos(in.Pos()))
 		if !x.isEffectFree(&in.Call) {
+			// A variable captured by the spawned closure lives in a heap cell that only this function and
+			// the closure can reach. If the closure (and the closures nested in it) only ever LOADS from it,
+			// the cell keeps its value across the spawn; everything else is havocked.
+			type kept struct{ p, v Val }
+			var keep []kept
+			if mc, ok := in.Call.Value.(*ssa.MakeClosure); ok {
+				if cfn, ok := mc.Fn.(*ssa.Function); ok {
+					for i, b := range mc.Bindings {
+						if _, isAlloc := b.(*ssa.Alloc); !isAlloc || i >= len(cfn.FreeVars) {
+							continue
+						}
+						if freeVarReadOnly(cfn.FreeVars[i]) {
+							pv := f.value(b, st, reach)
+							keep = append(keep, kept{pv, x.load(st, pv, reach, in.Pos())})
+						}
+					}
+				}
+			}
 			x.havocAll(st)
+			for _, k := range keep {
+				x.store(st, k.p, k.v, reach, in.Pos())
+			}
 		}
 	case *ssa.MakeMap:
 		mt := in.Type().Underlying().(*types.Map)
@@ -246,7 +267,25 @@ func (f *frame) execInstr(in ssa.Instruction, st *State, reach string) error {
 		x.note("channel send ignored at %s", x.pos(in.Pos()))
 	case *ssa.Select:
 		x.note("select at %s: results havocked", x.pos(in.Pos()))
-		f.set(in, x.freshVal(in.Type(), "select", st, reach))
+		sv := x.freshVal(in.Type(), "select", st, reach)
+		// the index result names one of the cases (a non-blocking select may also answer -1, the default)
+		idx := ""
+		if len(sv.Tuple) > 0 && len(sv.Tuple[0].L) > 0 {
+			idx = sv.Tuple[0].L[0]
+		} else if len(sv.L) > 0 {
+			idx = sv.L[0]
+		}
+		for _, tv := range sv.Tuple {
+			x.assumeErrorsWellFormed(tv, reach)
+		}
+		if idx != "" {
+			lo := "0"
+			if !in.Blocking {
+				lo = "(- 1)"
+			}
+			x.sc.Assume(reach, And("(<= "+lo+" "+idx+")", "(< "+idx+" "+fmt.Sprintf("%d", len(in.States))+")"))
+		}
+		f.set(in, sv)
 	case *ssa.MakeChan:
 		obj := x.sc.DefineAlways("newchan", "Int", x.alloc(st))
 		f.set(in, Val{Typ: in.Type(), L: []string{obj}})
@@ -278,6 +317,14 @@ func (f *frame) execUnOp(in *ssa.UnOp, st *State, reach string) error {
 	v := f.value(in.X, st, reach)
 	switch in.Op {
 	case token.MUL: // load
+		if al, ok := in.X.(*ssa.Alloc); ok {
+			if src := immutableCellValue(al); src != nil {
+				// the cell of a captured variable that is written exactly once, at entry, from a parameter and only
+				// ever read afterwards (also by the closures that capture it): its value is the parameter
+				f.set(in, f.value(src, st, reach))
+				return nil
+			}
+		}
 		lv := x.load(st, v, reach, in.Pos())
 		if g, ok := in.X.(*ssa.Global); ok {
 			// a package-level *regexp.Regexp assigned once, in init, from a constant pattern
@@ -303,7 +350,9 @@ func (f *frame) execUnOp(in *ssa.UnOp, st *State, reach string) error {
 		}
 	case token.ARROW:
 		x.note("channel receive at %s: value havocked", x.pos(in.Pos()))
-		f.set(in, x.freshVal(in.Type(), "recv", st, reach))
+		rv := x.freshVal(in.Type(), "recv", st, reach)
+		x.assumeErrorsWellFormed(rv, reach)
+		f.set(in, rv)
 	case token.XOR:
 		f.set(in, x.unsup("bitwise complement", in.Type(), st, reach))
 	default:
@@ -992,4 +1041,85 @@ func (x *Exec) rangeNext(in *ssa.Next, f *frame, st *State, reach string) Val {
 	st.Set(name, "(Array "+ks+" Bool)", Ite(okT, Store(vis, k.L[0], "true"), vis))
 	x.markWritten(name)
 	return Val{Typ: in.Type(), Tuple: []Val{boolV, k, v}}
+}
+
+// freeVarReadOnly: every use of the captured variable inside the closure is a load (so the closure
+// cannot change the cell, nor hand its address to anyone who could).
+func freeVarReadOnly(fv *ssa.FreeVar) bool {
+	refs := fv.Referrers()
+	if refs == nil {
+		return false
+	}
+	for _, r := range *refs {
+		u, ok := r.(*ssa.UnOp)
+		if !ok || u.Op != token.MUL {
+			if _, isDbg := r.(*ssa.DebugRef); isDbg {
+				continue
+			}
+			return false
+		}
+	}
+	return true
+}
+
+// immutableCellValue returns the parameter a heap cell was initialised with if that is the only write
+// the cell can ever see: one Store of a Parameter in the entry block, loads, and captures by closures
+// that only load from it.
+func immutableCellValue(al *ssa.Alloc) ssa.Value {
+	refs := al.Referrers()
+	if refs == nil {
+		return nil
+	}
+	var src ssa.Value
+	for _, r := range *refs {
+		switch u := r.(type) {
+		case *ssa.Store:
+			if u.Addr != al || src != nil {
+				return nil
+			}
+			p, isParam := u.Val.(*ssa.Parameter)
+			if !isParam || u.Block() == nil || u.Block().Index != 0 {
+				return nil
+			}
+			src = p
+		case *ssa.UnOp:
+			if u.Op != token.MUL {
+				return nil
+			}
+		case *ssa.DebugRef:
+		case *ssa.MakeClosure:
+			cfn, ok := u.Fn.(*ssa.Function)
+			if !ok {
+				return nil
+			}
+			for i, b := range u.Bindings {
+				if b == al && (i >= len(cfn.FreeVars) || !freeVarReadOnly(cfn.FreeVars[i])) {
+					return nil
+				}
+			}
+		default:
+			return nil
+		}
+	}
+	return src
+}
+
+// assumeErrorsWellFormed: an error value that arrives over a channel is assumed not to wrap a nil
+// *TypedError (the senders of this repository send results of the onos-lib-go constructors, which
+// allocate). Listed as an assumption wherever it is used.
+func (x *Exec) assumeErrorsWellFormed(v Val, reach string) {
+	if v.Typ == nil || len(v.L) != 2 || v.Typ.String() != "error" {
+		return
+	}
+	p := x.eng.TypPkgs["github.com/onosproject/onos-lib-go/pkg/errors"]
+	if p == nil {
+		return
+	}
+	tn, ok := p.Scope().Lookup("TypedError").(*types.TypeName)
+	if !ok {
+		return
+	}
+	tag := x.eng.tagOf(types.NewPointer(tn.Type()))
+	x.sc.Assume(reach, Implies(Eq(v.L[0], fmt.Sprintf("%d", tag)), Not(Eq(v.L[1], "0"))))
+	x.UsedTrust["error values received from a channel do not wrap a nil *TypedError (assumed)"] = true
 }
